@@ -481,6 +481,25 @@ theorem full_defect_is_of_the_problem {K : Type} [Scalar K] (alg : Ls.Alg) (halg
     a.defect = a'.defect :=
   solver_defect_indep alg halg p r r' a a' h h'
 
+/-- **Singular case: what does NOT depend on the regularisation list (round 13: gso complete).**  Whenever the numeric
+    solver model succeeds under two regularisations of the same `(A, b)`, the defect, `q_bb` (the cofactors of the
+    adjusted observations), `lindep` and `cond` agree for all three full-matrix solvers; for chol and gso also the
+    residuals and `[pvv]` (svd computes them from the regularised `x` in floating point).  gso's `q_bb` was the missing
+    field (`gso_indep_partial`): `icgs2` re-sorts the pointer-ordered columns into storage order and leaves their upper
+    blocks alone (`Full.icgs2_tops`, unconditional). -/
+theorem full_solver_list_independent_fields {K : Type} [Scalar K] (p : Ls.Problem K) (r r' : Ls.Reg) :
+    (∀ a a', Ls.cholSolve { p with reg := r } = .ok a → Ls.cholSolve { p with reg := r' } = .ok a' →
+      a.r = a'.r ∧ a.rtr = a'.rtr ∧ a.defect = a'.defect ∧ a.qbb = a'.qbb ∧ a.lindep = a'.lindep ∧ a.cond = a'.cond)
+    ∧ (∀ a a', Ls.gsoSolve { p with reg := r } = .ok a → Ls.gsoSolve { p with reg := r' } = .ok a' →
+      a.r = a'.r ∧ a.rtr = a'.rtr ∧ a.defect = a'.defect ∧ a.qbb = a'.qbb ∧ a.lindep = a'.lindep ∧ a.cond = a'.cond)
+    ∧ (∀ a a', Ls.svdSolve { p with reg := r } = .ok a → Ls.svdSolve { p with reg := r' } = .ok a' →
+      a.defect = a'.defect ∧ a.qbb = a'.qbb ∧ a.lindep = a'.lindep ∧ a.cond = a'.cond) :=
+  ⟨fun a a' h h' => chol_indep p r r' a a' h h',
+   fun a a' h h' => by
+     obtain ⟨h1, h2, h3, h4, h5, h6⟩ := gso_indep p r r' a a' h h'
+     exact ⟨h1, h2, h3, h6, h4, h5⟩,
+   fun a a' h h' => svd_indep p r r' a a' h h'⟩
+
 /-- **The driver's input is an instance (round 6).**  `Driver/FullState.lean` runs the chol / gso / svd machines on
     `Full.inputOf alg p` (`p` = the numeric problem of the data set the object currently holds: size, defect and
     resolution verdicts computed by the numeric solver model) and accepts an `info` line — size and `defect()` read
